@@ -502,7 +502,7 @@ def main():
         nphi = int(2 * rng.integers(7, 14) + 1) if tried % 2 else int(2 * rng.integers(14, 21) + 1)       # <= 27: NTOR not capped; >= 29: capped at 14
         try:
             cfg, q = gen_admissible(rng, order=order, asym=(tried % 2 == 0) ^ (tried % 4 == 3), qh=(tried % 3 == 0) ^ (tried % 2 == 0), signs=sg, nphi=nphi)
-            if not q.lasym and tried % 8 == 5:
+            if not q.lasym and tried % 8 == 1:
                 c2 = single_knob_variant(cfg, rng)        # exactly one symmetry-breaking input (B2s alone, sigma0 alone, ...)
                 q2, msgs = build(c2)
                 if admissible(q2, msgs):
